@@ -659,6 +659,7 @@ func main() {
 	}
 	if env.Replay == "" {
 		sharingStage(env, rep, rng.Fork())
+		totalLines += largeStage(env, rep)
 	}
 	if env.Replay == "" {
 		childSeeds = []uint64{env.Seed}
